@@ -81,7 +81,25 @@ def _valid_seq(ck, prog):
     ev = Evaluator(prog)
     ev.universe = UNIVERSE
     param = f.params()[1]
-    paths = ev.run_function(f, {param: SeqV("seq")}, ObjV("SequenceFileParser"))
+    from lcsa.sym import FlagDependent
+    try:
+        paths = ev.run_function(f, {param: SeqV("seq")}, ObjV("SequenceFileParser"))
+    except FlagDependent as fd:
+        # what happens to a character depends on a flag an earlier character set: both treatments are reachable, at most one is the required one
+        c = fd.letter
+
+        def cls(sg):
+            if sg[0] == "raise":
+                return ("raise", None)
+            texts = [t for _, t in sg[3]] + [t for _, t in sg[2]]
+            txt = next((t for t in texts if t not in (None, "[]")), "")
+            return ("drop", "") if txt in ("", "[]") else ("keep", txt)
+        want = ("keep", c) if (c in LETTERS or c == "*") else (("drop", "") if (c == " " or c in DIGITS) else ("raise", None))
+        got = {"at first": cls(fd.first), "once %s" % fd.valuation: cls(fd.later)}
+        ck.shape(any(v[0] != want[0] for v in got.values()), "__validSeq: treatment of %r varies with %s in a way lcsa cannot classify" % (c, fd.valuation), f.loc())
+        ck.ob("PART-filter", construct, False, expected=want, found=got, slot="char U+%04X" % ord(c), where=f.loc(),
+              note="letter kept, space and digits skipped, '*' kept for the later check, anything else rejected - wherever in the line it stands")
+        return
     live = [p for p in paths if p.kind == "return"]
     if len(live) != 1 or not isinstance(live[0].value, StrMapV):
         raise Undecided("__validSeq does not return the filtered string it built", f.loc())
@@ -245,6 +263,14 @@ def _line_loop(ck, prog):
         rets = [n for n in ast.walk(f.node) if isinstance(n, ast.Return) and n.value is not None]
         if len(rets) == 1 and isinstance(rets[0].value, ast.Call) and prog.resolve_call(f, rets[0].value) is fv and unparse(rets[0].value.args[0]) == S:
             final_ok = ret_ok = True
+    # every way out after the loop hands back the validated word: a return of the raw concatenation (under a flag, say) skips the asterisk rule
+    fv_assign = [s_ for s_ in post if isinstance(s_, ast.Assign) and isinstance(s_.value, ast.Call) and prog.resolve_call(f, s_.value) is fv]
+    for s_ in post:
+        for r in ast.walk(s_):
+            if isinstance(r, ast.Return) and r.value is not None and isinstance(r.value, ast.Name) and r.value.id == S \
+                    and not any(a.lineno < r.lineno and isinstance(a.targets[0], ast.Name) and a.targets[0].id == S for a in fv_assign):
+                ck.ob("ORDER", construct, False, expected="return __final_validation(<concatenated lines>) on every path", found=unparse(r), slot="result-unvalidated@%d" % (r.lineno - f.node.lineno),
+                      where=f.loc(r), note="this return hands back the concatenated lines without the asterisk rule having been applied")
     ck.shape(final_ok and ret_ok or not fv_calls, "parseSeqFile: result flows through __final_validation in a recognised way", f.loc())
     ck.ob("ORDER", construct, final_ok and ret_ok, expected="return __final_validation(<concatenated lines>)",
           found={"final_validation_calls": len(fv_calls)}, slot="result", where=f.loc())
